@@ -619,9 +619,24 @@ def sbool(x=False):
     return bool(x)
 
 
+class SymRange:
+    """range(n) with a symbolic bound: can only be consumed through a loop / comprehension contract"""
+
+    def __init__(self, *args):
+        if len(args) == 1:
+            self.start, self.stop = 0, args[0]
+        elif len(args) == 2:
+            self.start, self.stop = args
+        else:
+            raise Unsupported("strided range with symbolic bounds")
+
+    def __sym_iter__(self):
+        raise Unsupported("iteration over a range with symbolic bound without a loop contract")
+
+
 def srange(*args):
     if any(is_sym(a) for a in args):
-        raise Unsupported("range with symbolic bound (needs a loop contract)")
+        return SymRange(*args)
     return range(*args)
 
 
@@ -1460,6 +1475,11 @@ class Interp:
         rec(0, Scope(sc))
 
     def e_ListComp(self, e, sc):
+        h = self.hooks.get("comp")
+        if h is not None:
+            r = h(self, e, sc)
+            if r is not NotImplemented:
+                return r
         out = []
         self._comp(e.generators, sc, lambda s: out.append(self.eval(e.elt, s)))
         return out
